@@ -495,8 +495,9 @@ class FunctionReference:
                     partial_args=partial_args,
                     partial_kwargs=partial_kwargs,
                 )
-            except (ModuleNotFoundError, ValueError, AttributeError):
-                # Cannot find module or function. Treat as an external function reference.
+            except Exception:
+                # Cannot find module or function (the lookup imports the module named in the
+                # stored name, which may fail in any way). Treat as an external function reference.
                 external = True
 
         if external:
